@@ -912,9 +912,13 @@ def xp_generate(j):
         length = rng.randint(4, 50)
         pool = ellipsoid_pool(rng)
         calls, tries = [], 0
+        # aimed run (a proof or tie of one property broke): most draws are variants of calls of that property's functions
+        focus = [e for e in entries if e.name in set(filter(None, os.environ.get('VERIF_FOCUS', '').split(',')))]
         while len(calls) < length and tries < 400:
             tries += 1
             r = rng.random()
+            if focus and rng.random() < 0.7:
+                r = 0.93
             try:
                 if r < 0.55:
                     e = by[rng.choice(ELL_ENTRIES)]
@@ -947,6 +951,33 @@ def xp_generate(j):
                             calls.append((by['Constants.Transformation.add'], [T, d]))
                         else:
                             calls.append((by['Constants.Transformation.neg'], [T]))
+                elif r < 0.96:
+                    # variants of one call: the same arguments with ONE of them nudged by a hair (a memo keyed on a
+                    # rounded or truncated argument confuses the two) or redrawn (a memo keyed on too few of the
+                    # arguments does); every variant is later also run alone in a fresh process
+                    e = rng.choice(focus) if focus and rng.random() < 0.9 else rng.choices(entries, weights)[0]
+                    args = e.gen(rng)
+                    calls.append((e, args))
+                    nums = [i for i, x in enumerate(args) if isinstance(x, float) and math.isfinite(x)]
+                    ints = [i for i, x in enumerate(args) if isinstance(x, int) and not isinstance(x, bool)]
+                    for _ in range(rng.randint(2, 5)):
+                        a2 = list(args)
+                        if ints and rng.random() < 0.3:
+                            i = rng.choice(ints)        # the neighbouring zone, the next degree of freedom, ...
+                            a2[i] = a2[i] + rng.choice([-2, -1, 1, 2])
+                        elif nums and rng.random() < 0.6:
+                            i = rng.choice(nums)
+                            x = a2[i]
+                            a2[i] = rng.choice([x * (1 + rng.choice([-1, 1]) * 10 ** rng.uniform(-14, -9)),
+                                                x + rng.choice([-1, 1]) * 10 ** rng.uniform(-9, -3),
+                                                math.nextafter(x, math.inf), x + rng.choice([-1, 1]) * 3e-5])
+                        else:
+                            other = e.gen(rng)
+                            if len(other) != len(a2):
+                                continue
+                            i = rng.randrange(len(a2))
+                            a2[i] = other[i]
+                        calls.append((e, a2))
                 else:
                     e = rng.choices(entries, weights)[0]
                     calls.append((e, e.gen(rng)))
@@ -968,7 +999,8 @@ def xp_task(j):
     col = Collector()
     by = {e.name: e for e in build_entries()}
     st, seq = in_child(lambda: xp_generate(j))
-    head = [f'replay: VERIF_SEED={seed()} corr_purity.py --xseq {j}']
+    fo = os.environ.get('VERIF_FOCUS', '')
+    head = [f'replay: VERIF_SEED={seed()} ' + (f'VERIF_FOCUS={fo} ' if fo else '') + f'corr_purity.py --xseq {j}']
     if st != 'ok':
         col.disagreement('harness-xp-error', f'xp sequence {j}', f'generator: {seq}', head)
         seq = []
